@@ -137,7 +137,11 @@ type c12Rec struct {
 	raw        string
 }
 
+// c12Literal: version tags of tools that were registered as a literal without a schema (their listed parameters are not judged).
+var c12Literal sync.Map
+
 func execC12(c C12Case) *Failure {
+	c12Literal = sync.Map{}
 	w := NewWorld(c.Mode, RegSpec{}, WorldOpt{})
 	defer w.Close()
 	conn, err := w.Connect()
@@ -250,7 +254,13 @@ func execC12(c C12Case) *Failure {
 			tag := fmt.Sprintf("%s:v%d", name, r.ver)
 			// every version's descriptor is built from the same struct type plus one parameter of its own
 			ver := r.ver
-			w.Srv.RegisterTool(mcp.NewTool(name, mcp.WithDescription(tag), mcp.WithInputStruct[typedInner](), mcp.WithString(fmt.Sprintf("p%d", r.ver))), func(ctx context.Context, req *mcp.CallToolRequest) (*mcp.CallToolResult, error) {
+			tool := mcp.NewTool(name, mcp.WithDescription(tag), mcp.WithInputStruct[typedInner](), mcp.WithString(fmt.Sprintf("p%d", r.ver)))
+			if ver%4 == 0 {
+				// a descriptor written as a literal: no schema at all
+				tool = &mcp.Tool{Name: name, Description: tag}
+				c12Literal.Store(tag, true)
+			}
+			w.Srv.RegisterTool(tool, func(ctx context.Context, req *mcp.CallToolRequest) (*mcp.CallToolResult, error) {
 				// handlers take a moment (their tool may be removed or replaced meanwhile); two in three answer with a JSON document as text
 				time.Sleep(time.Duration(ver%4) * 150 * time.Microsecond)
 				if ver%3 != 0 {
@@ -547,7 +557,7 @@ func judgeC12(c C12Case, recs []*c12Rec) *Failure {
 				}
 				if listed {
 					tag := desc[:strings.LastIndex(desc, "|")]
-					if reg == "tool" && r.props != nil {
+					if _, lit := c12Literal.Load(tag); reg == "tool" && r.props != nil && !lit {
 						// the listed schema is the one this version was registered with: the struct's fields and its own parameter
 						want := []string{"label", "tags", "p" + tag[strings.LastIndex(tag, ":v")+2:]}
 						sort.Strings(want)
